@@ -17,7 +17,29 @@ import numpy as np
 from common import CoqRunError, coq_Z, coq_list, load_corpus, rng_for
 import kernelcase as K
 from c01 import HEADER, kernel_setup
-from c07 import make_library
+from c07 import make_library as _make_library
+
+
+def make_library(spec, n=24, s_unit=None):
+    """The C07 library with rows that make call history matter: jitter varies from row to row (zero and positive values mixed),
+    and a few rows have a very short period and a high eccentricity (the K-variance cap of the default prior is active there)."""
+    import astropy.units as u
+
+    lib, P = _make_library(spec, n=n)
+    r = np.random.default_rng(spec["lib_seed"] + 17)
+    du = u.Unit(spec["data_unit"])
+    sc = 1.0 if spec["data_unit"] == "km/s" else 1000.0
+    svals = np.where(r.random(n) < 0.4, 0.0, np.round(r.uniform(0.1, 3.0, n) * 64) / 64) * sc
+    svals[0], svals[min(1, n - 1)] = 1.5 * sc, 0.0  # a positive jitter directly followed by a zero one
+    e = np.asarray(lib["e"].value, float)
+    Pd = np.asarray(P, float).copy()
+    for k in range(2, n, 5):
+        Pd[k] = 1.0 + k / 64.0
+        e[k] = 0.9375
+    lib["P"] = Pd * u.day
+    lib["e"] = e * u.one
+    lib["s"] = (svals * du).to(u.Unit(s_unit)) if s_unit else svals * du
+    return lib, Pd
 
 SIG = "C05:paths"
 
@@ -91,6 +113,15 @@ def observe(ctx, spec, with_pool):
         # row by row, and reversed order
         obs.append(("each row alone", None, np.array([np.array(helper.batch_marginal_ln_likelihood(chunk[i : i + 1]))[0] for i in range(N)])))
         obs.append(("reversed library (values reversed back)", None, np.array(helper.batch_marginal_ln_likelihood(np.ascontiguousarray(chunk[::-1])))[::-1]))
+        # a second library whose jitter column is in ANOTHER velocity unit than the data: the paths convert it themselves, so the
+        # values must agree to round-off (not bit for bit) with each other and with the first library
+        other = "m/s" if spec["data_unit"] == "km/s" else "km/s"
+        lib2, _ = make_library(spec, n=spec["lib_n"], s_unit=other)
+        fn2 = os.path.join(ctx.scratch, f"c05_{spec['lib_seed']}_b.hdf5")
+        lib2.write(fn2, overwrite=True)
+        conv = [("jitter in " + other + ", in memory", np.asarray(J().marginal_ln_likelihood(data, lib2, in_memory=True), float)),
+                ("jitter in " + other + ", object->cache", np.asarray(J().marginal_ln_likelihood(data, lib2, n_batches=3), float)),
+                ("jitter in " + other + ", filename", np.asarray(J().marginal_ln_likelihood(data, fn2, n_batches=2), float))]
         # accepted sets for equal seeds
         acc = []
 
@@ -115,7 +146,7 @@ def observe(ctx, spec, with_pool):
                 accepted("MultiPool(2) filename n_batches=4", src=fn, n_batches=4, pool=pool)
             finally:
                 pool.close()
-    return dict(base=base, obs=obs, acc=acc, N=N, lib=lib, data=data, prior=prior)
+    return dict(base=base, obs=obs, acc=acc, N=N, lib=lib, data=data, prior=prior, conv=conv)
 
 
 def run_cases(ctx, specs):
@@ -145,6 +176,12 @@ def run_cases(ctx, specs):
             if nb is not None:
                 pterms.append(f"({coq_list([coq_Z(b) for b in bb])}, {nb}, {coq_list([coq_Z(b) for b in vb])})")
                 pinfo.append((spec, label))
+        for label, vals in o["conv"]:
+            n_paths += 1
+            if len(vals) != len(base) or not np.allclose(vals, base, rtol=1e-11, atol=1e-11):
+                i = int(np.argmax(np.abs(np.asarray(vals) - base))) if len(vals) == len(base) else 0
+                ctx.fail("predicate", SIG, f"path `{label}`: value of prior sample {i} is {vals[i] if len(vals) else None!r}, with the jitter column in the data unit it is {base[i]!r}",
+                         case=dict(spec, path=label))
         ref = o["acc"][0][1]
         for label, a in o["acc"][1:]:
             if a != ref:
@@ -155,7 +192,7 @@ def run_cases(ctx, specs):
 
         for i in (0, o["N"] - 1):
             th = dict(P=float(o["lib"]["P"][i].to_value(u.day)), e=float(o["lib"]["e"][i]), omega=float(o["lib"]["omega"][i].to_value(u.rad)),
-                      M0=float(o["lib"]["M0"][i].to_value(u.rad)), s=spec["theta"]["s"])
+                      M0=float(o["lib"]["M0"][i].to_value(u.rad)), s=float(o["lib"]["s"][i].to_value(u.Unit(spec["data_unit"]))))
             sp = dict(spec, theta=th)
             out = K.run_impl(sp)
             if bits(out["ll"]) != bb[i]:
@@ -210,7 +247,7 @@ def run(ctx):
             n_eval += 1
     ctx.coverage.update(evaluations=n_eval, distinct_nontrivial=nt)
     return ctx.finish(
-        rule="problems as for C01 (nice regime) with a library of N in {5,11,23,37} prior samples in kernel units; paths: in-memory object, "
+        rule="problems as for C01 (nice regime) with a library of N in {5,11,23,37} prior samples in kernel units whose jitter varies from row to row (zeros and positive values mixed) and with capped short-period rows, plus the same library with the jitter column in the other velocity unit (agreement to 1e-11); paths: in-memory object, "
         "object->cache and file name with n_batches in {None,2,3,N-1,N+5} (thorough: {None,1,2,3,N-1,N,N+1,N+5}), 2-process MultiPool with "
         "n_batches 2, 5 and None (first problem in quick, all in thorough), after unrelated marginal / posterior calls on the same TheJoker, the "
         "helper before and after posterior/test calls, a pickled helper, each row alone, reversed order; accepted sets for equal seeds over "
